@@ -39,6 +39,9 @@ pub struct DirPlan {
     /// ones is drawn from this seed)
     #[serde(default)]
     pub links: u64,
+    /// how the directories handed to `enigma_dir::write` / `read` are named and reached (SimDir::styled_dir; 0 = plain)
+    #[serde(default)]
+    pub dir_style: u8,
 }
 
 #[derive(Clone, Serialize, Deserialize)]
@@ -152,7 +155,7 @@ impl Engine for C12 {
             p.read_io = IoPlan::gen_legal(&mut s);
         }
         if s.chance(35) {
-            p.dir = Some(DirPlan { rewrite: s.chance(30), create_order: if s.chance(25) { 0 } else { s.next() | 1 }, fault: None, links: 0 });
+            p.dir = Some(DirPlan { rewrite: s.chance(30), create_order: if s.chance(25) { 0 } else { s.next() | 1 }, fault: None, links: 0, dir_style: if s.chance(40) { 1 + s.below(7) as u8 } else { 0 } });
             let mut l = rng.split("links");
             if l.chance(20) {
                 if let Some(d) = p.dir.as_mut() {
@@ -174,7 +177,7 @@ impl Engine for C12 {
                     _ => Fault::EioAtOffset { off: f.below(text_len + 1) },
                 }),
                 _ => {
-                    let d = p.dir.get_or_insert(DirPlan { rewrite: false, create_order: f.next() | 1, fault: None, links: 0 });
+                    let d = p.dir.get_or_insert(DirPlan { rewrite: false, create_order: f.next() | 1, fault: None, links: 0, dir_style: 0 });
                     let file = f.usize(nfiles.max(1));
                     d.fault = Some(match f.below(6) {
                         0 | 1 => DirFault::Crash { files: f.range(1, nfiles.max(1) as u64) as usize, at: f.below(400) },
@@ -354,15 +357,22 @@ impl Engine for C12 {
         if let Some(dp) = &p.dir {
             st.probe("dir_runs");
             let mut d = SimDir::new("c12");
-            let w1 = d.join("w1");
-            // the target directory exists and is empty (an empty set creates no file, hence no directory)
-            std::fs::create_dir_all(&w1).expect("simdir");
+            // the target directory exists and is empty (an empty set creates no file, hence no directory); its name and
+            // the path it is reached by are drawn (missed seeded change C12-11: a walk that skips "hidden" entries
+            // also skips a root whose own name starts with a dot)
+            let (w1_real, w1) = d.styled_dir("w1", dp.dir_style, ".mapping");
+            let (r_real, rdir) = d.styled_dir("r", dp.dir_style, ".mapping");
+            if dp.dir_style % 8 != 0 {
+                st.probe("dir_name_or_path_unusual");
+                st.sched.u64(dp.dir_style as u64);
+                st.nontrivial = true;
+            }
             if dp.rewrite {
                 // an earlier write of a larger set left the same files behind, each longer than what is written now
                 for (f, t) in &per_file {
                     let mut old = t.clone();
                     old.extend_from_slice(b"\tFIELD staleField staleName I\n\tMETHOD staleMethod ()V\n\t\tCOMMENT left over from the earlier write\n");
-                    d.create(&format!("w1/{f}.mapping"), &old);
+                    d.create(&format!("{w1_real}/{f}.mapping"), &old);
                 }
                 st.probe("dir_rewrite_over_longer_files");
                 st.nontrivial = true;
@@ -371,7 +381,7 @@ impl Engine for C12 {
                 Err(pm) => out.push(Violation::new("T0", "panic", format!("dir-write:{}", panic_path(&pm)), pm)),
                 Ok(Err(e)) => out.push(Violation::new("T0", "refused-wellformed", "dir-write", format!("{e:#}"))),
                 Ok(Ok(())) => {
-                    let tree: Vec<(String, Vec<u8>)> = d.tree().into_iter().filter_map(|(n, b)| n.strip_prefix("w1/").map(|n| (n.to_string(), b))).collect();
+                    let tree: Vec<(String, Vec<u8>)> = d.tree().into_iter().filter_map(|(n, b)| n.strip_prefix(&format!("{w1_real}/")).map(|n| (n.to_string(), b))).collect();
                     st.events += 2 * tree.len() as u64 + 2;
                     // one file per root, named after the target (or source) name, holding exactly that root's text
                     let mut want: Vec<(String, Vec<u8>)> = per_file.iter().map(|(f, t)| (format!("{f}.mapping"), t.clone())).collect();
@@ -490,17 +500,15 @@ impl Engine for C12 {
                     }
                     for (n, b) in &created {
                         if dp.links != 0 && (crate::rng::fnv(n.as_bytes()) ^ dp.links) % 3 == 0 {
-                            d.create_link(&format!("r/{n}"), b);
+                            d.create_link(&format!("{r_real}/{n}"), b);
                             st.probe("dir_file_is_a_symlink");
                             st.nontrivial = true;
                         } else {
-                            d.create(&format!("r/{n}"), b);
+                            d.create(&format!("{r_real}/{n}"), b);
                         }
                     }
-                    std::fs::create_dir_all(d.join("r")).ok();
                     st.events += 3 * created.len() as u64;
                     st.sched.u64(dp.create_order);
-                    let rdir = d.join("r");
                     let tier = if expect_equal { "T1" } else { "T2" };
                     st.tier(if expect_equal { "T1" } else { "T2" });
                     match no_panic(|| read_dir_real(&rdir, m)) {
@@ -534,10 +542,10 @@ impl Engine for C12 {
                     // heal and read again: no residue
                     if let Some(h) = healed {
                         for (n, _) in &files {
-                            d.remove(&format!("r/{n}"));
+                            d.remove(&format!("{r_real}/{n}"));
                         }
                         for (n, b) in &h {
-                            d.create(&format!("r/{n}"), b);
+                            d.create(&format!("{r_real}/{n}"), b);
                         }
                         match no_panic(|| read_dir_real(&rdir, m)) {
                             Ok(Ok(r)) => {
@@ -592,6 +600,11 @@ impl Engine for C12 {
             if d.rewrite {
                 let mut q = p.clone();
                 q.dir.as_mut().unwrap().rewrite = false;
+                c.push(q);
+            }
+            if d.dir_style != 0 {
+                let mut q = p.clone();
+                q.dir.as_mut().unwrap().dir_style = 0;
                 c.push(q);
             }
         }
